@@ -142,8 +142,11 @@ CompStatesOver(N) ==
                        StLegalWiring([nodes |-> N, ty |-> T, out |-> [x \in N |-> FALSE], edges |-> F, bbs |-> <<>>])},
               B \in {<<>>, ("i" :> FF)} }
           : T \in [N -> CompTypes] }
-InitComp == /\ \E N \in SUBSET {"a", "i.d", "i.q"} : st \in {s \in CompStatesOver(N) : StBBConsistent(s, {})}
-            /\ removed = {} /\ last = "" /\ lastExc = ""
+\* also states in which the caller has removed a pin node (and possibly put something else under its name)
+InitComp == /\ removed \in SUBSET {"i.d", "i.q"}
+            /\ \E N \in SUBSET {"a", "i.d", "i.q"} : st \in {s \in CompStatesOver(N) : StBBConsistent(s, removed)
+                                                                   /\ (removed # {} => "i" \in DOMAIN s.bbs)}
+            /\ last = "" /\ lastExc = ""
 NextComp == AddSubAct \/ AddBlackboxAct \/ FillAct
 SpecComp == InitComp /\ [][NextComp]_vars
 
